@@ -13,7 +13,7 @@ VARIABLE hist
 gvars == <<vars, hist>>
 
 Obs == [outcome |-> outcome, consumed |-> consumed, nt |-> Len(toTarget), np |-> Len(toPeer),
-        peerOpen |-> ~srvClosedPeer, own |-> Len(SelectSeq(toPeer, LAMBDA x : x = 0))]
+        peerOpen |-> ~srvClosedPeer, dial |-> DialTo, own |-> Len(SelectSeq(toPeer, LAMBDA x : x = 0))]
 
 CONSTANTS FullTimeline,  \* TRUE: Timeout and PeerClose at any point; FALSE: at the start, after the first segment, at the end
           Mode           \* "reader": every stream shape against a silent, reachable target (reading, segmentation, deadline, close)
